@@ -68,6 +68,9 @@ add("truedot", S("true.x"), [one('"true.x"')], "full")
 add("int", I("42"), [one("42")], "core")
 add("neg", I("-7"), [one("-7")], "full")
 add("zero", I("0"), [one("0")], "full")
+add("one", I("1"), [one("1")], "full")
+add("fzero", F("0.0"), [one("0.0")], "full")
+add("fone", F("1.0"), [one("1.0")], "full")
 add("big", I("9223372036854775808"), [one("9223372036854775808")], "full")
 add("float", F("3.14"), [one("3.14")], "core")
 add("exp", F("1000.0"), [one("1e3")], "full")
@@ -160,6 +163,9 @@ add("z4", Z(4, "", "```", "===END==="), [[("first", []), ("rel", ["````"]), ("ra
 add("ztrail", Z(3, "", "trail  ", "tab{U0009}"), [[("first", []), ("rel", ["```"]), ("raw", ["trail  "]), ("raw", ["tab", "U0009"]), ("rel", ["```"])]], "core")
 add("zempty", Z(3, "", ), [[("first", []), ("rel", ["```"]), ("rel", ["```"])]], "core")
 add("ztab", Z(3, "txt", "{U0009}x", "cafe{U0301}", 'q"\\n'), [[("first", []), ("rel", ["```", "txt"]), ("raw", ["U0009", "x"]), ("raw", ["cafe", "U0301"]), ("raw", ['q"\\n']), ("rel", ["```"])]], "full")
+add("zblank3", Z(3, "", "a  ", "", "", "", "{U00A7}1::X", "{U00A7}2::Y"), [[("first", []), ("rel", ["```"]), ("raw", ["a  "]), ("raw", []), ("raw", []), ("raw", []),
+                                                                         ("raw", [SEC, "1::X"]), ("raw", [SEC, "2::Y"]), ("rel", ["```"])]], "full")
+add("l01", L(I("0"), I("1"), B("true"), N), [one("[", "0", ",", "1", ",", "true", ",", "null", "]")], "full")
 add("zblank", Z(3, "", "x", "", "---"), [[("first", []), ("rel", ["```"]), ("raw", ["x"]), ("raw", []), ("raw", ["---"]), ("rel", ["```"])]], "full")
 
 
